@@ -22,34 +22,51 @@ def rule_seen_key(ctx: Ctx, rule: str) -> None:
                    'must be stored folded)')
     repo = ctx.repo
     fi = repo.func('glob', 'Glob._is_unique')
-    tests = [c for c in walk_no_nested(fi.node) if isinstance(c, ast.Compare) and len(c.ops) == 1 and
-             isinstance(c.ops[0], (ast.NotIn, ast.In)) and norm_src(c.comparators[0]) == 'self.seen']
-    adds = [c for c in walk_no_nested(fi.node) if isinstance(c, ast.Call) and norm_src(c.func) == 'self.seen.add']
-    if len(tests) != 1 or len(adds) != 1:
-        raise AnalysisError('_is_unique: lookup / add pair not found')
-    look, store = tests[0].left, adds[0].args[0]
-
-    def resolve(e: ast.AST) -> str:
-        if isinstance(e, ast.Name):
-            defs = [s for s in walk_no_nested(fi.node) if isinstance(s, ast.Assign) and
-                    any(isinstance(t, ast.Name) and t.id == e.id for t in s.targets)]
-            if len(defs) == 1:
-                return norm_src(defs[0].value)
-        return norm_src(e)
-    a, b = resolve(look), resolve(store)
-    ctx.ob(rule, 'glob:Glob._is_unique/lookup-key==stored-key', a == b, repo.loc('glob', adds[0]), f'self.seen.add({a})', f'self.seen.add({b})',
+    from ..symeval import focus, _tag
+    pars = [p for p in fi.params() if p != 'self']
+    if len(pars) != 1:
+        raise AnalysisError('Glob._is_unique: (path) expected')
+    ev = SymEval(repo, inline=False)
+    paths = ev.tabulate(fi, {pars[0]: Opaque('path')}, Obj(('glob', 'Glob'), {}))
+    bad_k, bad_a, bad_f, bad_n = [], [], [], []
+    n = 0
+    for p in paths:
+        focus(p)
+        d = p.decisions
+        adds = [e for e in p.of('call') if e[1] == 'self.seen.add']
+        mem = [(k, v) for k, v in d.items() if k.endswith(' in self.seen')]
+        nu = d.get('self.nounique')
+        if nu is None:
+            bad_n.append('self.nounique is not consulted')
+            continue
+        if nu:
+            if p.ret is not True or adds or mem:
+                bad_n.append(f'nounique: returns {_tag(p.ret)}, {len(adds)} add(s), {len(mem)} lookup(s)')
+            continue
+        n += 1
+        cs = d.get('self.case_sensitive')
+        K = 'path' if cs else 'path.lower()'
+        if cs is None or len(mem) != 1 or mem[0][0] != f'{K} in self.seen':
+            bad_f.append(f'case_sensitive={cs}: looks up {[k for k, _v in mem]}')
+            continue
+        seen = mem[0][1]
+        if seen:
+            if adds or p.ret is not False:
+                bad_a.append(f'already seen: {len(adds)} add(s), returns {_tag(p.ret)}')
+        else:
+            if len(adds) != 1 or p.ret is not True:
+                bad_a.append(f'new: {len(adds)} add(s), returns {_tag(p.ret)}')
+            elif [_tag(x) for x in adds[0][2]] != [K]:
+                bad_k.append(f'looks up {K} but stores {[_tag(x) for x in adds[0][2]]}')
+    if n < 4:
+        raise AnalysisError(f'Glob._is_unique: only {n} rows consult the seen set')
+    site = repo.loc('glob', fi.node)
+    ctx.ob(rule, 'glob:Glob._is_unique/lookup-key==stored-key', not bad_k, site, 'the key that is looked up is the key that is stored', 'as expected' if not bad_k else bad_k[0],
            witness="on a case-sensitive file system glob(['*b','A*'], flags=IGNORECASE) returns 'Ab' twice")
-    q = fq(fi)
-    okg = q.guarded(adds[0], lambda s: 'not in self.seen' in s or 'in self.seen' in s, 'T') or \
-        q.guarded(adds[0], lambda s: 'in self.seen' in s, 'F')
-    ctx.ob(rule, 'glob:Glob._is_unique/add-only-when-new', okg, repo.loc('glob', adds[0]), 'add under the lookup test', str(okg))
-    fold = 'lower()' in a
-    cs = 'self.case_sensitive' in a
-    ctx.ob(rule, 'glob:Glob._is_unique/folds-under-case-rule', fold and cs, repo.loc('glob', tests[0]),
-           'key = path.lower() iff not self.case_sensitive', a, witness="glob(['a','A'], flags=IGNORECASE) on a case-insensitive FS")
-    nu = [s for s in walk_no_nested(fi.node) if isinstance(s, ast.If) and norm_src(s.test) == 'self.nounique']
-    oknu = any(any(isinstance(x, ast.Return) and norm_src(x.value) == 'True' for x in n.body) for n in nu)
-    ctx.ob(rule, 'glob:Glob._is_unique/nounique-shortcut', oknu, repo.loc('glob', fi.node), 'if self.nounique: return True', str(oknu))
+    ctx.ob(rule, 'glob:Glob._is_unique/add-only-when-new', not bad_a, site, 'seen: False, nothing stored; new: stored once, True', 'as expected' if not bad_a else sorted(set(bad_a))[0])
+    ctx.ob(rule, 'glob:Glob._is_unique/folds-under-case-rule', not bad_f, site,
+           'key = path.lower() iff not self.case_sensitive', 'as expected' if not bad_f else sorted(set(bad_f))[0], witness="glob(['a','A'], flags=IGNORECASE) on a case-insensitive FS")
+    ctx.ob(rule, 'glob:Glob._is_unique/nounique-shortcut', not bad_n, site, 'if self.nounique: return True (nothing looked up or stored)', 'as expected' if not bad_n else bad_n[0])
 
 
 def rule_yield_filtered(ctx: Ctx, rule: str) -> None:
